@@ -411,6 +411,9 @@ func (p *Program) VerifyFunction(id string) (res *FuncResult) {
 		// lock-guarded fields are outside the semantic frame check (other goroutines may change them while the lock
 		// is not held), so the writes of this function itself are checked against its assigns clause by name
 		allowed := e.P.expandAssigns(fc)
+		if fc.HasWrites {
+			allowed = e.P.expandAssigns(&FuncContract{ID: fc.ID, Assigns: fc.Writes})
+		}
 		var gw []string
 		for c := range e.guardedWrites {
 			gw = append(gw, c)
@@ -424,7 +427,7 @@ func (p *Program) VerifyFunction(id string) (res *FuncResult) {
 				}
 			}
 			e.curPos = fn.Pos()
-			e.oblige("frame", "frame.guarded."+strings.TrimPrefix(c, "H."), "writes the lock-guarded field "+strings.TrimPrefix(c, "H.")+" ("+e.guardedWrites[c]+") although the assigns clause does not list it", True, BoolLit(ok), nil)
+			e.oblige("frame", "frame.guarded."+strings.TrimPrefix(c, "H."), "writes the lock-guarded field "+strings.TrimPrefix(c, "H.")+" ("+e.guardedWrites[c]+") although the writes/assigns clause does not list it", True, BoolLit(ok), nil)
 		}
 	}
 	if fc != nil && fc.NoGlobals {
